@@ -539,25 +539,73 @@ def rule_rep_structure(ctx):
     r.analysed(h)
     loops = [n for n in ast.walk(h.node) if isinstance(n, ast.For)]
     ok = False
+    unjudged = None
     site = h.node
     why = "no fold loop found"
+
+    def yields_generator_matrices(it):
+        """the iterable hands out self.generators[letter] per letter"""
+        if isinstance(it, ast.Call) and dotted(it.func) == "map" \
+                and len(it.args) == 2 and dotted(it.args[0]) in (
+                    "self.generators.__getitem__", "self.generators.get"):
+            return True
+        if isinstance(it, (ast.GeneratorExp, ast.ListComp)) \
+                and len(it.generators) == 1 and not it.generators[0].ifs:
+            v = dotted(it.generators[0].target)
+            return dotted(it.elt) == f"self.generators[{v}]"
+        return False
     for lp in loops:
+        lv = dotted(lp.target)
+        local = {}
         for s in lp.body:
             if isinstance(s, ast.Assign) and isinstance(s.targets[0], ast.Name) \
-                    and isinstance(s.value, ast.BinOp) \
-                    and isinstance(s.value.op, ast.MatMult):
-                acc = s.targets[0].id
+                    and not (isinstance(s.value, ast.BinOp)
+                             and isinstance(s.value.op, ast.MatMult)):
+                local[s.targets[0].id] = s.value
+        it_defs = [n.value for n in h.node.body if isinstance(n, ast.Assign)
+                   and dotted(n.targets[0]) == dotted(lp.iter)]
+        iters = [lp.iter] + it_defs
+
+        def is_letter_matrix(e):
+            if isinstance(e, ast.Name) and e.id in local:
+                e = local[e.id]
+            if dotted(e) == f"self.generators[{lv}]":
+                return True
+            return dotted(e) == lv and any(yields_generator_matrices(i)
+                                           for i in iters)
+        for s in lp.body:
+            if isinstance(s, (ast.Assign, ast.AugAssign)) \
+                    and isinstance(s.targets[0] if isinstance(s, ast.Assign)
+                                   else s.target, ast.Name):
+                if isinstance(s, ast.AugAssign):
+                    if not isinstance(s.op, ast.MatMult):
+                        continue
+                    acc = s.target.id
+                    L, R = s.target, s.value
+                    val = f"{acc} @ {dotted(R)}"
+                elif isinstance(s.value, ast.BinOp) \
+                        and isinstance(s.value.op, ast.MatMult):
+                    acc = s.targets[0].id
+                    L, R = s.value.left, s.value.right
+                    val = dotted(s.value)
+                else:
+                    continue
                 site = s
-                L, R = s.value.left, s.value.right
-                lv = dotted(lp.target)
-                if dotted(L) == acc and dotted(R) == f"self.generators[{lv}]":
+                if dotted(L) == acc and is_letter_matrix(R):
                     ok = True
-                elif dotted(R) == acc:
-                    why = (f"the fold is `{dotted(s.value)}`: letters are "
+                elif dotted(R) == acc and dotted(L) != acc:
+                    why = (f"the fold is `{val}`: letters are "
                            "multiplied on the LEFT, so rho(uv) = rho(v)rho(u) "
                            "(an anti-homomorphism)")
+                elif dotted(L) == acc and (
+                        ops_chain(R, "self.generators") or (
+                            isinstance(R, (ast.Call, ast.Attribute))
+                            and f"self.generators[{lv}]" in dotted(R))):
+                    why = (f"the fold step `{val}` does not multiply by the "
+                           "generator matrix itself")
                 else:
-                    why = f"the fold step `{dotted(s.value)}` is not acc @ generators[letter]"
+                    unjudged = (f"the fold step `{val}` is not in a "
+                                "recognised form (acc @ generators[letter])")
     init = [n for n in h.node.body if isinstance(n, ast.Assign)
             and isinstance(n.value, ast.Call)
             and dotted(n.value.func) in ("utils.identity", "np.identity",
@@ -565,6 +613,10 @@ def rule_rep_structure(ctx):
     if ok and init:
         r.ok("FOLD", "_word_value", loc(h, site), norm_stmt(site),
              "left-to-right product from the identity")
+    elif unjudged and not ok and why == "no fold loop found":
+        r.note("FOLD", loc(h, site), norm_stmt(site)[:120], unjudged +
+               " (not judged)")
+        r.gap("rule_inverse_pairing", "FOLD: " + unjudged, fatal=False)
     else:
         if ok and not init:
             why = "the fold does not start from the identity matrix"
